@@ -10,12 +10,20 @@ from ..common import rng
 from .c01 import gen_pars, SW
 
 TECHNIQUE = 'runtime law monitor: Bragg/Ewald/rigid-rotation laws and inverse-forward identity checked on outputs of the real code, with an analytic reachability oracle'
-LEVEL_TEXT = 'Exploration: reference-free physical laws are evaluated on every output of compute_g_vectors / compute_k_vectors / C compute_gv+compute_geometry / columnfile columns, the inverse (uncompute_g_vectors, g_to_k) is run on reachable, unreachable and boundary g-vectors and composed with the forward map, and detector projection is round-tripped through Python and C. Counts of reachable/unreachable/margin cases are in the evidence.'
-LEVEL_NOTE = 'Trusts the harness reachability closed form (1e-9 margin accepted either way) and conditioning-derived tolerances.'
+LEVEL_TEXT = ('Exploration: reference-free physical laws are evaluated on every output of compute_g_vectors / compute_k_vectors / '
+              'C compute_gv+compute_geometry (g columns included) / columnfile columns / gv_general.rotation_axis and k_to_g with a '
+              'general axis and pre/post matrices; the inverse (uncompute_g_vectors, uncompute_one_g_vector, g_to_k) is run on '
+              'reachable, unreachable and boundary g-vectors (the blind-cone boundary is solved for the actual wedge/chi), composed '
+              'with the forward map, and the two omega solutions are compared with the closed-form separation 2.acos|x|; detector '
+              'projection is round-tripped through Python and C. Counts of reachable/unreachable/margin/boundary cases are in the evidence.')
+LEVEL_NOTE = ('Trusts the harness reachability closed form (1e-9 margin accepted either way) and conditioning-derived tolerances. '
+              'g_to_k is only driven the way transform.uncompute_g_vectors drives it (axis -z, post=wedgechi): for a general axis its '
+              'pre/post convention is private to the code and not part of the property.')
 
 RULE = ("a case = one (wavelength, wedge, chi, omegasign, detector class) configuration with a "
         "batch of g-vectors / peaks: directions uniform on the sphere, |g|*lambda/2 in "
-        "{1e-6..0.999, 1, 1.001, 3}, dense sampling of the blind-cone boundary, axis-parallel g; "
+        "{1e-6..0.999, 1, 1.001, 3}, dense sampling of the blind-cone boundary (solved for the case's wedge/chi), "
+        "axis-parallel g, batches of 0 and 1 g-vector, plus a random rotation axis with random pre/post rotations; "
         "non-trivial = batch contains both reachable and unreachable g, or wedge/chi non-zero; "
         "distinct = distinct (config class, special-set) descriptor")
 
@@ -47,18 +55,33 @@ def gen_g(r, lam, wedge, chi, n):
     s = r.choice([1e-6, 1e-3, 0.01, 0.05, 0.1, 0.2, 0.3, 0.5, 0.7, 0.9, 0.999, 1.0, 1.001, 3.0],
                  n, p=[.02, .03, .05, .1, .15, .15, .15, .1, .07, .05, .04, .03, .03, .03])
     g = v * (2 * s / lam)
-    # blind-cone boundary: choose direction so that x is close to +-1
-    # for wedge=chi=0: |x| = |g| lam / (2 sin(polar)) ; sin(polar) = |g| lam/2 * (1+-d)
+    # blind-cone boundary: choose the polar angle so that x = rhs/A is close to +-1 for THIS wedge/chi.
+    # With g = |g| (sin(p) cos(az), sin(p) sin(az), cos(p)), a = first row of W.C, h = hypot(a0, a1), ss = |g| lam / 2:
+    #   x = (-ss - a2 cos(p)) / (h sin(p))   (reach(): P^2 + Q^2 = h^2 (gx^2 + gy^2))
+    # so x = X  <=>  a2 cos(p) + X h sin(p) = -ss  <=>  rho cos(p - psi) = -ss, rho = hypot(a2, X h), psi = atan2(X h, a2).
+    # (wedge = chi = 0 gives sin(p) = ss/|X| with X < 0, the old special case.)
+    a = np.asarray(geom.Wmat(wedge) @ geom.Cmat(chi), float)[0]
+    hh = float(np.hypot(a[0], a[1]))
     m = n // 4
     for i in range(m):
         ss = float(r.choice([0.05, 0.2, 0.5, 0.8]))
         dlt = float(r.choice([0, 1e-12, -1e-12, 1e-10, -1e-10, 1e-8, -1e-8, 1e-6, -1e-6, 1e-4,
                               -1e-4, 1e-2, -1e-2]))
-        sp = min(1.0, ss * (1 + dlt))
+        sx = float(r.choice([-1, 1]))
         az = r.uniform(0, 2 * np.pi)
-        sign = r.choice([-1, 1])
-        cp = np.sqrt(max(0.0, 1 - sp * sp)) * sign
-        g[:, i] = (2 * ss / lam) * np.array([sp * np.cos(az), sp * np.sin(az), cp])
+        br = float(r.choice([-1, 1]))
+        for X in (sx * (1 + dlt), -sx * (1 + dlt)):
+            rho = float(np.hypot(a[2], X * hh))
+            psi = float(np.arctan2(X * hh, a[2]))
+            if ss > rho:
+                continue      # this |g| never touches that side of the cone for this wedge/chi
+            pol = [psi + sg * float(np.arccos(-ss / rho)) for sg in (br, -br)]
+            pol = [q for q in pol if np.sin(q) > 1e-6]
+            if pol:
+                q = pol[0]
+                g[:, i] = (2 * ss / lam) * np.array([np.sin(q) * np.cos(az), np.sin(q) * np.sin(az), np.cos(q)])
+                break
+        # (no feasible polar angle: the random g drawn above is kept)
     # axis parallel
     if n > 8:
         g[:, m] = [0, 0, 0.3 * 2 / lam]
@@ -156,6 +179,106 @@ def laws_c(run, mods, p, desc, r, n):
     if (rel(g2.T, R @ g0.T) > 1e-12 / lam).any():
         run.violation("rotation:rigid:C", "C compute_gv: omega change is not a rigid rotation",
                       dict(desc, pars=p, delta=dl))
+    # the same three laws on the g columns of C compute_geometry (out[:, 3:6]: a second copy of the loop in
+    # cdiffraction.c, the one columnfile.updateGeometry(fast=True) uses), grain at the origin
+    q0 = ct.xyz2geometry(xyz, om)
+    q1 = ct2.xyz2geometry(xyz, om + 31.0)
+    q2 = ct.xyz2geometry(xyz, om + dl)
+    th = np.radians(np.asarray(q0[:, 0], F)) / 2
+    run.count("law_evals", 3 * n)
+    run.count("compute_geometry_g_laws", n)
+    mg0 = np.sqrt((q0[:, 3:6] ** 2).sum(axis=1))
+    mg1 = np.sqrt((q1[:, 3:6] ** 2).sum(axis=1))
+    if (rel(mg0, 2 * np.sin(th) / F(lam)) > 1e-12 / lam).any() or (rel(mg0, q0[:, 2]) > 1e-12 / lam).any():
+        run.violation("bragg:|g|:compute_geometry", "C compute_geometry: |g| != 2 sin(tth/2)/lambda or != its ds column",
+                      dict(desc, pars=p))
+    if (rel(mg0, mg1) > 1e-12 / lam).any():
+        run.violation("invariance:|g|:compute_geometry", "C compute_geometry: |g| depends on omega/sign/wedge/chi",
+                      dict(desc, pars=p))
+    if (rel(q2[:, 3:6].T, R @ q0[:, 3:6].T) > 1e-12 / lam).any():
+        run.violation("rotation:rigid:compute_geometry", "C compute_geometry: omega change is not a rigid rotation of g",
+                      dict(desc, pars=p, delta=dl))
+    if (rel(q0[:, 3:6], g0) > 1e-12 / lam).any():
+        run.violation("compute_geometry-vs-compute_gv", "C compute_geometry g columns differ from C compute_gv",
+                      dict(desc, pars=p))
+
+
+def hrot(ax, ang_deg):
+    """harness Rodrigues rotation matrices (n,3,3), right handed about unit axis ax by ang (degrees), longdouble"""
+    ax = np.asarray(ax, F)
+    q = np.radians(np.atleast_1d(np.asarray(ang_deg, F)))
+    K = np.array([[0, -ax[2], ax[1]], [ax[2], 0, -ax[0]], [-ax[1], ax[0], 0]], F)
+    I3 = np.eye(3, dtype=F)
+    return I3[None] * np.cos(q)[:, None, None] + np.sin(q)[:, None, None] * K[None] + \
+        (1 - np.cos(q))[:, None, None] * np.outer(ax, ax)[None]
+
+
+def axis_laws(run, gv_general, p, desc, r, n):
+    """gv_general.rotation_axis and k_to_g with a GENERAL axis and pre/post matrices (transform only ever uses +-z):
+    a change of the rotation angle is a rigid, right-handed rotation about the axis; k_to_g is the documented product
+    g = pre . rot(axis, angle) . post . k.  Oracle: the harness' own Rodrigues matrices in longdouble."""
+    ax = r.normal(size=3)
+    ax /= np.sqrt((ax * ax).sum())
+    if desc["index"] % 4 == 0:
+        ax = np.array([[0, 0, 1.0], [0, 0, -1.0], [1.0, 0, 0], [0, -1.0, 0]][(desc["index"] // 4) % 4])
+    ang = r.uniform(-720, 720, n)
+    ang[:4] = [0.0, 90.0, 180.0, -360.0]
+    v = r.normal(size=(3, n)) * 10 ** r.uniform(-3, 3)
+    scale = float(np.abs(v).max())
+    tol = 1e-13 * scale      # ~20 flops on numbers <= scale, angles <= 720 deg: a few 1e-16 relative each
+    o = gv_general.rotation_axis(ax)
+    Rn = hrot(ax, ang)
+    want = np.einsum("nij,jn->in", Rn, np.asarray(v, F))
+    got = o.rotate_vectors(v, ang)
+    run.count("general_axis_laws", n)
+    adesc = dict(desc, axis=ax.tolist())
+    if (rel(got, want) > tol).any():
+        run.violation("axis:rotate_vectors", "rotation_axis.rotate_vectors(v, angles) is not the right-handed rotation "
+                      "about the axis", adesc)
+    back = o.rotate_vectors_inverse(got, ang)
+    if (rel(back, v) > 2 * tol).any():
+        run.violation("axis:rotate_vectors_inverse", "rotate_vectors_inverse does not undo rotate_vectors", adesc)
+    # |v| preserved, component along the axis preserved (rigid rotation ABOUT the axis)
+    if (rel(np.sqrt((got * got).sum(axis=0)), np.sqrt((np.asarray(v, F) ** 2).sum(axis=0))) > tol).any() or \
+            (rel(ax @ got, np.asarray(ax, F) @ np.asarray(v, F)) > tol).any():
+        run.violation("axis:rigid", "rotate_vectors changes |v| or the component along the axis", adesc)
+    # fixed-angle matrix form: to_matrix / rotate_vectors(angles=None) / inverse
+    a0 = float(r.uniform(-360, 360))
+    o1 = gv_general.rotation_axis(ax, a0)
+    M = hrot(ax, a0)[0]
+    if (rel(o1.to_matrix(), M) > 1e-14).any() or (rel(o1.rotate_vectors(v), M @ np.asarray(v, F)) > tol).any() or \
+            (rel(o1.rotate_vectors_inverse(v), M.T @ np.asarray(v, F)) > 2 * tol).any():
+        run.violation("axis:to_matrix", "rotation_axis(axis, angle).to_matrix / rotate_vectors() is not the rotation "
+                      "about the axis by the angle", dict(adesc, angle=a0))
+    # matrix -> axis/angle -> matrix (angle kept away from 0 and 180 where acos is ill conditioned: error eps/sin(angle))
+    a1 = float(r.uniform(1.0, 179.0))
+    M1 = np.asarray(hrot(ax, a1)[0], float)
+    o2 = gv_general.axis_from_matrix(M1)
+    if abs(o2.angle - a1) > 1e-9 or (rel(o2.direction, ax) > 1e-10).any() or (rel(o2.matrix, M1) > 1e-12).any():
+        run.violation("axis:axis_from_matrix", "axis_from_matrix(R(axis, %r)) gives angle %r direction %r"
+                      % (a1, o2.angle, np.asarray(o2.direction).tolist()), dict(adesc, angle=a1))
+    # k_to_g with pre and post: documented product, and a change of angle is a rigid rotation about pre.axis
+    def rrot():
+        a = r.normal(size=3)
+        return np.asarray(hrot(a / np.sqrt((a * a).sum()), r.uniform(-180, 180))[0], float)
+    combos = [(None, None), (rrot(), None), (None, rrot()), (rrot(), rrot())]
+    pre, post = combos[desc["index"] % 4]
+    gk = gv_general.k_to_g(v, ang, axis=ax, pre=pre, post=post)
+    Pm = np.eye(3, dtype=F) if pre is None else np.asarray(pre, F)
+    Qm = np.eye(3, dtype=F) if post is None else np.asarray(post, F)
+    wantg = np.einsum("ij,njk,kn->in", Pm, Rn, Qm @ np.asarray(v, F))
+    run.count("k_to_g_general:" + ("pre" if pre is not None else "") + ("post" if post is not None else "") +
+              ("none" if pre is None and post is None else ""), n)
+    if (rel(gk, wantg) > 3 * tol).any():
+        run.violation("axis:k_to_g", "k_to_g(k, angles, axis, pre, post) != pre . rot(axis, angle) . post . k",
+                      dict(adesc, pre=pre is not None, post=post is not None))
+    dl = float(r.uniform(-200, 200))
+    gk2 = gv_general.k_to_g(v, ang + dl, axis=ax, pre=pre, post=post)
+    Rd = Pm @ hrot(ax, dl)[0] @ Pm.T
+    if (rel(gk2, Rd @ np.asarray(gk, F)) > 4 * tol).any() or \
+            (rel(np.sqrt((gk2 * gk2).sum(axis=0)), np.sqrt((np.asarray(v, F) ** 2).sum(axis=0))) > 3 * tol).any():
+        run.violation("axis:k_to_g:rigid", "a change of the angle in k_to_g is not a rigid rotation about the (pre-rotated) axis",
+                      dict(adesc, delta=dl))
 
 
 def inverse_law(run, mods, p, desc, r, n):
@@ -173,8 +296,17 @@ def inverse_law(run, mods, p, desc, r, n):
     run.count("inverse_reachable", int(can.sum()))
     run.count("inverse_unreachable", int(cannot.sum()))
     run.count("inverse_margin_skipped", int((~can & ~cannot).sum()))
-    # unreachable: invalid marker
-    marker = ((tth == 0) | np.isnan(tth)) & (eta1 == 0) & (eta2 == 0) & (om1 == 0) & (om2 == 0)
+    run.count("inverse_total", int(g.shape[1]))
+    # how many decided g sit next to the blind-cone boundary (| |x| - 1 | < 2e-2), by wedge/chi class: this is what
+    # shows that the boundary generator in gen_g works for tilted axes too
+    with np.errstate(invalid="ignore"):
+        nearb = (np.abs(np.abs(x) - 1) < 2e-2) & (can | cannot)
+    run.count("cone_boundary_decided:" + ("wedge=chi=0" if wedge == chi == 0 else "tilted-axis"), int(nearb.sum()))
+    # unreachable: invalid marker.  "Flagged invalid instead of being given angles": every one of the five outputs is
+    # 0 or NaN (the code multiplies by the valid mask; tth is NaN when |g| > 2/lambda)
+    def nul(v):
+        return (v == 0) | np.isnan(v)
+    marker = nul(tth) & nul(eta1) & nul(eta2) & nul(om1) & nul(om2)
     bad = cannot & ~marker
     if bad.any():
         i = int(np.nonzero(bad)[0][0])
@@ -199,7 +331,26 @@ def inverse_law(run, mods, p, desc, r, n):
                               "uncompute->compute does not return g: g=%r got=%r err=%.3g tol=%.3g x=%r"
                               % (gi[:, j].tolist(), gf[:, j].tolist(), err[j], tol[j], xc[j]),
                               dict(desc, pars=p, g=gi[:, j].tolist()))
-        # the two solutions must be different rotations unless tangent
+        # the two solutions are the two DIFFERENT roots of P cos(w) + Q sin(w) = rhs:  w = phi +- acos(x), so their
+        # separation is exactly 2 acos|x| (mod 360) - an implementation returning the same root twice, or a root and its
+        # mirror about the wrong line, passes the per-solution round trip above but not this.
+        # Tolerance: d(acos x) = dx / sqrt(1 - x^2); dx is the rounding of x = rhs/A evaluated in double here and in the
+        # code: <= ~8 eps (|g|^2 lam/2 + |a2 gz| + A) / A (the two terms of rhs can cancel); both roots carry it, plus
+        # 1e-9 deg for the degrees/arctan2 wrap.  At the 1e-9 margin sqrt(1-x^2) >= 4.5e-5, separation >= 5e-3 deg.
+        WCa = np.asarray(geom.Wmat(wedge) @ geom.Cmat(chi), float)[0]
+        dx = 8 * np.finfo(float).eps * (modg[can] ** 2 * lam / 2 + np.abs(WCa[2] * gi[2]) + A[can]) / A[can]
+        sep_want = np.degrees(2 * np.arccos(np.minimum(np.abs(xc), 1.0)))
+        sep_got = np.abs(np.asarray(geom.angdiff(om1[can], om2[can]), float))
+        sep_tol = 1e-9 + np.degrees(4 * dx / np.sqrt(1 - xc * xc))
+        run.count("inverse_solution_separations", int(can.sum()))
+        b = ~(np.abs(sep_got - sep_want) <= sep_tol)
+        if b.any():
+            j = int(np.nonzero(b)[0][0])
+            run.violation("inverse:solutions-separation",
+                          "the two omega solutions %r, %r are %.12g deg apart, the two roots of the Laue condition are "
+                          "2.acos|x| = %.12g deg apart (x=%r) g=%r" % (om1[can][j], om2[can][j], sep_got[j], sep_want[j],
+                                                                     xc[j], gi[:, j].tolist()),
+                          dict(desc, pars=p, g=gi[:, j].tolist()))
         # direct g_to_k / k_to_g: k must satisfy Laue: |k + kin| = 1/lam
         post = None if wedge == chi == 0 else gv_general.wedgechi(wedge=wedge, chi=chi)
         o1, o2, valid = gv_general.g_to_k(gi, lam, axis=[0, 0, -1], pre=None, post=post)
@@ -217,11 +368,60 @@ def inverse_law(run, mods, p, desc, r, n):
                 run.violation("inverse:laue", "k from g_to_k/k_to_g is not on the Ewald sphere "
                               "g=%r err=%.3g" % (gi[:, j].tolist(), e[j]),
                               dict(desc, pars=p, g=gi[:, j].tolist()))
+    # batches of one and of zero g-vectors (a single peak, an empty peak list): same verdicts, same shapes
+    if can.any() and cannot.any():
+        for j in (int(np.nonzero(can)[0][0]), int(np.nonzero(cannot)[0][0])):
+            g1 = np.ascontiguousarray(g[:, j:j + 1])
+            with np.errstate(invalid="ignore"):
+                t1, (e1a, e1b), (o1a, o1b) = transform.uncompute_g_vectors(g1, lam, wedge=wedge, chi=chi)
+            run.count("inverse_single_g_batches")
+            got1 = np.array([t1[0], e1a[0], e1b[0], o1a[0], o1b[0]])
+            ref1 = np.array([tth[j], eta1[j], eta2[j], om1[j], om2[j]])
+            # same arithmetic on one column instead of n: identical up to BLAS blocking of the 3x3 products (1e-9 deg)
+            same = np.all((np.abs(got1 - ref1) <= 1e-9 * (1 + np.abs(ref1))) | (np.isnan(got1) & np.isnan(ref1)))
+            if not same or any(np.shape(v) != (1,) for v in (t1, e1a, e1b, o1a, o1b)):
+                run.violation("inverse:single-g-batch", "uncompute_g_vectors on a batch of one g gives %r, in a batch of %d "
+                              "the same g gave %r" % (got1.tolist(), g.shape[1], ref1.tolist()),
+                              dict(desc, pars=p, g=g[:, j].tolist()))
+        t0, (e0a, e0b), (o0a, o0b) = transform.uncompute_g_vectors(np.zeros((3, 0)), lam, wedge=wedge, chi=chi)
+        run.count("inverse_empty_batches")
+        if any(np.shape(v) != (0,) for v in (t0, e0a, e0b, o0a, o0b)):
+            run.violation("inverse:empty-batch", "uncompute_g_vectors on zero g-vectors does not return empty arrays",
+                          dict(desc, pars=p))
+    # uncompute_one_g_vector(gv, wavelength, wedge): the single-vector entry point (it has no chi argument, so it
+    # is driven at chi = 0): both solutions must map forward onto g / unreachable must be flagged
+    x0, A0, modg0 = reach(g, lam, wedge, 0.0)
+    with np.errstate(invalid="ignore"):
+        can0 = (np.abs(x0) < 1 - margin) & (A0 > 1e-12 * np.maximum(modg0, 1e-300)) & (modg0 * lam / 2 < 1 - margin)
+        cannot0 = ((np.abs(x0) > 1 + margin) | ((A0 == 0) & (modg0 > 0)) | (modg0 * lam / 2 > 1 + margin)) & ~can0
+    for msk_, lab in ((can0, "reachable"), (cannot0, "unreachable")):
+        for j in np.nonzero(msk_)[0][:3]:
+            with np.errstate(invalid="ignore"):
+                t1, e1, o1 = transform.uncompute_one_g_vector(g[:, j].copy(), lam, wedge=wedge)
+            run.count("uncompute_one_g_vector:" + lab)
+            if lab == "unreachable":
+                vals = np.array([t1, e1[0], e1[1], o1[0], o1[1]], float)
+                if not np.all((vals == 0) | np.isnan(vals)):
+                    run.violation("inverse:one_g:unreachable-not-flagged",
+                                  "uncompute_one_g_vector gave angles %r to a g that cannot diffract (x=%r)"
+                                  % (vals.tolist(), x0[j]), dict(desc, pars=p, g=g[:, j].tolist(), chi_used=0.0))
+                continue
+            s1 = modg0[j] * lam / 2
+            tol1 = (1e-9 + 1e-14 / np.sqrt(1 - x0[j] ** 2) + 1e-14 / np.sqrt(1 - s1 * s1)) * modg0[j]
+            for k_ in (0, 1):
+                gf = transform.compute_g_vectors(np.array([t1]), np.array([e1[k_]]), np.array([o1[k_]]), lam,
+                                                 wedge=wedge, chi=0.0)[:, 0]
+                err1 = float(np.sqrt(((gf - g[:, j]) ** 2).sum()))
+                if not err1 <= tol1:
+                    run.violation("inverse:one_g:roundtrip", "uncompute_one_g_vector solution %d does not map forward onto g: "
+                                  "g=%r got=%r err=%.3g tol=%.3g" % (k_ + 1, g[:, j].tolist(), gf.tolist(), err1, tol1),
+                                  dict(desc, pars=p, g=g[:, j].tolist(), chi_used=0.0))
     return bool(can.any() and cannot.any())
 
 
 def detector_roundtrip(run, transform, p, desc, r, n):
     tth = r.uniform(0.05, 55, n)
+    tth[: n // 10] = r.uniform(55, 78, n // 10)    # steep rays; those with |n.ray| <= 0.2 are dropped below
     eta = r.uniform(-180, 180, n)
     om = r.uniform(-360, 360, n)
     # harness: does the ray hit the front of the detector plane?
@@ -245,6 +445,7 @@ def detector_roundtrip(run, transform, p, desc, r, n):
     tolt = 1e-9 + np.degrees(pos_tol / np.abs(dist))
     tole = 1e-9 + np.degrees(pos_tol / np.maximum(np.abs(dperp), 1e-9))
     run.count("detector_roundtrips", int(ok.sum()))
+    run.count("detector_roundtrips_tth>55", int((ok & (tth > 55)).sum()))
     b = ok & ~((np.abs(tth2 - tth) <= tolt) & (np.abs(np.asarray(geom.angdiff(eta2, eta), float)) <= tole))
     if b.any():
         j = int(np.nonzero(b)[0][0])
@@ -280,6 +481,7 @@ def one_case(run, seed, idx, flip, bits, mods):
     laws_c(run, (transform, columnfile, parameters), p, desc, r, 200 if idx % 4 else 4000)
     cImageD11.cimaged11_omp_set_num_threads(4)
     both = inverse_law(run, (transform, gv_general), p, desc, r, n)
+    axis_laws(run, gv_general, p, desc, rng(seed, "C02", idx, "axis"), 64)
     detector_roundtrip(run, transform, p, desc, r, 300)
     run.case((flip, bits, idx % 3), nontrivial=both or p["wedge"] != 0 or p["chi"] != 0,
              sample=dict(desc, wavelength=p["wavelength"], wedge=p["wedge"], chi=p["chi"],
@@ -313,3 +515,21 @@ def check(run, replay=None):
     run.require_counter("inverse_roundtrips", 1000)
     run.require_counter("inverse_unreachable", 100)
     run.require_counter("detector_roundtrips", 1000)
+    run.require_counter("detector_roundtrips_tth>55", 100)
+    run.require_counter("inverse_solution_separations", 1000)
+    run.require_counter("cone_boundary_decided:tilted-axis", 1000)
+    run.require_counter("cone_boundary_decided:wedge=chi=0", 100)
+    run.require_counter("compute_geometry_g_laws", 1000)
+    run.require_counter("general_axis_laws", 1000)
+    for c_ in ("k_to_g_general:none", "k_to_g_general:pre", "k_to_g_general:post", "k_to_g_general:prepost"):
+        run.require_counter(c_, 64)
+    run.require_counter("uncompute_one_g_vector:reachable", 100)
+    run.require_counter("uncompute_one_g_vector:unreachable", 100)
+    run.require_counter("inverse_single_g_batches", 100)
+    # the margin (decided by nobody) must stay a small part of the workload: by construction it holds the boundary
+    # samples with |dlt| <= 1e-10 (n/4 * 5/13 of a batch = 9.6 %) plus |g| lam/2 == 1 (3 %); more than 20 % would mean
+    # the harness generator or reach() slipped and the inverse law is being decided on too little
+    tot = run.counters.get("inverse_total", 0)
+    if tot and run.counters.get("inverse_margin_skipped", 0) > 0.20 * tot:
+        run.inconc("inverse law: %d of %d g-vectors fell into the undecided 1e-9 margin (> 20 %%)"
+                   % (run.counters.get("inverse_margin_skipped", 0), tot))
